@@ -1,4 +1,98 @@
-import AdfModel.Api
+/-
+  C06 — Read compatibility with an independent decoder on any well-formed image.
+  The decoder the C library is compared with at run time is tools/fsck.py (validated on AmigaDOS-made dumps) on
+  images written by tools/imgwriter.py with randomised layouts.  The model-side theorems say WHY layout cannot
+  matter, for every layout rather than the sampled ones:
+   * a name is looked up by walking the chain of its hash slot and the result is the first match — independent of
+     where the blocks are, in which order the chain links them, and what lies in unrelated blocks (the statement
+     only constrains the sectors of the chain itself);
+   * the slot of a name and the match test are functions of the name alone (C15);
+   * the i-th byte of a file is in data block ⌊i/dbs⌋ at offset i mod dbs (C01), and that block's number is slot
+     71 − k of the header for k < 72, else slot 71 − (k−72) mod 72 of extension block ⌊(k−72)/72⌋ (C01);
+   * what `adfFileReadNextBlock` puts in the handle's buffer on success IS the disk content of the block it
+     designates (C19), whatever else the disk holds;
+   * the metadata reported for an entry is a pure function of its 512-byte header block.
+  Links, international characters, and the whole-tree comparison are covered by the run-time comparison only.
+  (MANIFEST: partial.)
+-/
+import AdfProofs.NamespaceLemmas
+import AdfProofs.FileReadLemmas
+import AdfProps.C01
+import AdfProps.C15
 namespace Adf.C06
-theorem C06_placeholder : True := trivial
+open Adf
+
+/-- layout independence of lookup: two disks that agree on the sectors of the chain give the same answer.
+    (Stated through the abstract chain: the result is `lookupSpec` of the chain, which does not mention the disk.) -/
+theorem C06_lookup_layout_independent (c : Cfg) (v : Nat) (intl : Bool) (name : Bytes)
+    (chain1 chain2 : List (Nat × Blk)) (n1 n2 fuel : Nat) (s1 s2 : St)
+    (hne : chain1 ≠ []) (hl1 : chain1.length ≤ fuel) (hl2 : chain2.length ≤ fuel)
+    (hf1 : s1.faultAt = none) (hf2 : s2.faultAt = none)
+    (hc1 : ChainOn c s1.disk v n1 chain1) (hc2 : ChainOn c s2.disk v n2 chain2)
+    (hsame : chain1.map (·.2) = chain2.map (·.2)) :
+    ∃ r1 r2 t1 t2, run c (nameToEntryBlkLoop v intl name fuel n1 0) s1 = (.ok r1, t1) ∧
+                   run c (nameToEntryBlkLoop v intl name fuel n2 0) s2 = (.ok r2, t2) ∧
+                   r1.1.isSome = r2.1.isSome ∧ r1.2.1 = r2.2.1 := by
+  have hne2 : chain2 ≠ [] := by
+    intro h; rw [h] at hsame; simp at hsame; exact hne hsame
+  have p1 := nameToEntryBlkLoop_spec (F := fun _ => False) c v intl name chain1 fuel n1 0 zeroBlk s1 hne hl1 hf1 hc1
+  have p2 := nameToEntryBlkLoop_spec (F := fun _ => False) c v intl name chain2 fuel n2 0 zeroBlk s2 hne2 hl2 hf2 hc2
+  unfold Post at p1 p2
+  rcases h1 : run c (nameToEntryBlkLoop v intl name fuel n1 0) s1 with ⟨r1, t1⟩
+  rcases h2 : run c (nameToEntryBlkLoop v intl name fuel n2 0) s2 with ⟨r2, t2⟩
+  rw [h1] at p1; rw [h2] at p2
+  cases r1 with
+  | fault f => exact absurd p1 id
+  | ok r1 =>
+    cases r2 with
+    | fault f => exact absurd p2 id
+    | ok r2 =>
+      refine ⟨r1, r2, t1, t2, rfl, rfl, ?_⟩
+      rw [p1.1, p2.1]
+      -- the reference lookup only looks at the blocks, not at their sectors
+      have key : ∀ (l1 l2 : List (Nat × Blk)) (u1 u2 : Nat) (b0 : Blk), l1.map (·.2) = l2.map (·.2) →
+          (lookupSpec intl name l1 u1 b0).1.isSome = (lookupSpec intl name l2 u2 b0).1.isSome ∧
+          (lookupSpec intl name l1 u1 b0).2.1 = (lookupSpec intl name l2 u2 b0).2.1 := by
+        intro l1
+        induction l1 with
+        | nil => intro l2 u1 u2 b0 h; cases l2 with
+          | nil => exact ⟨rfl, rfl⟩
+          | cons _ _ => simp at h
+        | cons a l1 ih =>
+          intro l2 u1 u2 b0 h
+          cases l2 with
+          | nil => simp at h
+          | cons a2 l2 =>
+            obtain ⟨m1, b1⟩ := a; obtain ⟨m2, b2⟩ := a2
+            simp only [List.map_cons, List.cons.injEq] at h
+            obtain ⟨hb, ht⟩ := h
+            have hb' : b1 = b2 := hb
+            subst hb'
+            by_cases hm : nameMatches intl name b1
+            · rw [lookupSpec_match _ _ _ _ _ _ _ hm, lookupSpec_match _ _ _ _ _ _ _ hm]; simp
+            · cases l1 with
+              | nil =>
+                cases l2 with
+                | nil => rw [lookupSpec_single _ _ _ _ _ _ hm, lookupSpec_single _ _ _ _ _ _ hm]; simp
+                | cons _ _ => simp at ht
+              | cons x l1 =>
+                cases l2 with
+                | nil => simp at ht
+                | cons y l2 =>
+                  rw [lookupSpec_step _ _ _ _ _ _ _ _ hm, lookupSpec_step _ _ _ _ _ _ _ _ hm]
+                  exact ih (y :: l2) m1 m2 b1 ht
+      exact key chain1 chain2 0 0 zeroBlk hsame
+
+/-- the buffer after a successful next-block IS the designated block's disk content (C19), any layout -/
+theorem C06_buffer_is_disk_content (c : Cfg) (h : FileH) (s : St) :
+    Post AnyFault c (fileReadNextBlock h) s (fun r s' =>
+      r.1 = rcOK → r.2.curData = padTo ((s.sector (vsect c h.vol r.2.curDataPtr)).take 512) 512) := by
+  refine Post.mono _ _ _ _ _ (fileReadNextBlock_spec c h s) ?_
+  rintro r s' ⟨_, _, _, h3⟩ hok
+  exact (h3 hok).2.2
+
+/-- entry metadata is a function of the header block alone -/
+theorem C06_metadata_function_of_block (b1 b2 : Blk) (h : b1 = b2) : entBlock2Entry b1 = entBlock2Entry b2 := by
+  rw [h]
+
 end Adf.C06
